@@ -168,6 +168,14 @@ PARENTS = {
     "builtin_func": ("b", False, "f", None),
     "builtin_class": ("b", False, "C", None),
     "builtin_property": ("b", False, "C.prop", None),
+    # hand-built objects (public API), not attached to a module / a modules collection: what the repository's own docstring tests use
+    "detached_init": ("api", "init"),
+    "detached_func": ("api", "func"),
+    "detached_attr": ("api", "attr"),
+    "detached_class": ("api", "class"),
+    "detached_class_alias_init": ("api", "class_alias_init"),
+    "detached_method_init": ("api", "method_init"),
+    "module_no_collection_func": ("api", "module_func"),
 }
 PARENT_IDS = tuple(PARENTS)
 
@@ -180,6 +188,8 @@ def build_parent(tid: str):
     spec = PARENTS[tid]
     if spec is None:
         return None, None
+    if spec[0] == "api":
+        return _build_api_parent(spec[1])
     modname, has_path, path, tweak = spec
     mc = griffe.ModulesCollection()
     lc = griffe.LinesCollection()
@@ -192,9 +202,46 @@ def build_parent(tid: str):
     return root, obj
 
 
+def _build_api_parent(which: str):
+    """(root, parent) built by hand with the public API; nothing here has a modules collection, most have no module."""
+    from griffe import Alias, Attribute, Class, Function, Module, Parameter, Parameters
+
+    def params():
+        return Parameters(Parameter("self"), Parameter("p", annotation="int", default="3"), Parameter("a"), Parameter("b", annotation="str"))
+
+    if which == "init":
+        f = Function("__init__", parameters=params(), returns="None")
+        return f, f
+    if which == "func":
+        f = Function("f", parameters=params(), returns="tuple[int, str]")
+        return f, f
+    if which == "attr":
+        a = Attribute("x", annotation="tuple[int, str]", value="(0, '')")
+        return a, a
+    if which == "class":
+        k = Class("K")
+        k.set_member("x", Attribute("x", annotation="int"))
+        k.set_member("__init__", Function("__init__", parameters=params()))
+        return k, k
+    if which == "class_alias_init":
+        k = Class("K")
+        k.set_member("x", Attribute("x", annotation="int"))
+        k.set_member("__init__", Alias("__init__", "missing.target"))
+        return k, k
+    if which == "method_init":
+        k = Class("K")
+        k.set_member("__init__", Function("__init__", parameters=params()))
+        return k, k["__init__"]
+    if which == "module_func":
+        m = Module("m")
+        m.set_member("f", Function("f", parameters=params(), returns="Generator[tuple[int, str], tuple[str, bool], tuple[bool, float]]"))
+        return m, m["f"]
+    raise ValueError(which)
+
+
 def parent_facts(tid: str) -> dict:
     return {
-        "is_init": tid == "init",
+        "is_init": tid in ("init", "detached_method_init"),
         "is_property": tid.startswith("property") or tid == "builtin_property",
     }
 
@@ -225,7 +272,9 @@ TYPES = ("int", "str", "list[int]", "tuple[int, str]", "Optional[int]", "int or 
          "await x", "await x", "await y.z(1)", "yield", "yield x", "yield from x", "*a", "(a := 1)", "f'{a}'", "f'{a!r:>{w}}'", "a if b else c",
          "[i for i in x]", "{k: v for k, v in x}", "(i async for i in x)", "not a", "-a", "a and b", "a < b <= c", "x[1:2]", "x[1:2, ::3]",
          "{**a}", "{*a}", "[*a, b]", "a @ b", "b'x'", "1j", "x.y(z, *a, k=1, **kw)", "a.b.c.d.e.f.g.h.i.j.k.l.m.n.o.p.q.r.s.t.u.v.w.x.y.z",
-         "x[", "x]", "((", "[(])", "a = b", "1 if", "lambda *a, b=1, **k: (yield)", "await", "x[await y]", "list[await x]")  # fmt: skip
+         "x[", "x]", "((", "[(])", "a = b", "1 if", "lambda *a, b=1, **k: (yield)", "await", "x[await y]", "list[await x]",
+         # tokens on which CPython's compile() itself gives up: nesting beyond the parser's recursion limit, a NUL byte, a lone surrogate
+         "-" * 3000 + "1", "a" + ".b" * 3000, "not " * 1500 + "a", "x\x00y", "\ud800")  # fmt: skip
 WORDS = ("Summary.", "text", "Some more words here", "e.g. this", "trailing space ", "naïve café", "日本語", "émoji ✓", "a - b", "- bullet",
          "* star", "1. one", "x = y", "(paren)", "`code`", "http //x", "end.", "Returns nothing", "Note", "Args", "deprecated", "0.1.0",
          "--- x", "x ---", "a b", "tab\there", "cr\r", "\x0cff", "> quote", "#", "..", "<BLANKLINE>", "| a | b |")  # fmt: skip
@@ -245,6 +294,11 @@ PROSE_ONLY = ("Summary.", "text", "Some more words here", "e.g. this", "naïve c
               "> quote", "#", "..", "| a | b |", "http://example.com/x", "a.b: c", "(see: x)", "x (int): y", "f(a: int)", "at 12:30?",
               "trailing space ", "tab\there", "-x", "- -x", ">>> print(1)", "<BLANKLINE>", "param x", "*args", "**kw")  # fmt: skip
 PROSE_FENCES = ("```", "```python")
+# lines that look like section titles / fields but open no section as long as the line below is not indented contents
+# (docs: "section identifier: optional section title" + indented contents directly below, a blank line above)
+PROSE_TITLES = ("Note:", "Returns:", "Args:", "Examples:", "key: value", "See also: there", "Returns: nothing special", "Parameters: Title:",
+                "Todo:", "Attributes:", "Warning: careful", "réf: x", "with-dash: x", "UPPER:", "Yields:", "Raises: ValueError", "Functions:",
+                "Receives:", "Other Parameters:", "Example:", "x: int", "Parameters", "Returns", "Notes")  # fmt: skip
 
 
 def render(lines) -> str:
@@ -471,10 +525,33 @@ def decode(data: bytes) -> dict:
     lines: list = []
     if mode >= 13:  # 3/16 prose-only texts
         case["prose"] = True
+        after_title = False
         for _ in range(src.below(9)):
-            how = src.below(8)
-            body = src.pick(BLANKS) if how == 0 else src.pick(PROSE_FENCES) if how == 1 else " ".join(src.pick(PROSE_ONLY) for _ in range(1 + src.below(3)))
-            lines.append([src.pick(INDENTS), body])
+            how = src.below(10)
+            ind = src.pick(INDENTS)
+            if how == 0:
+                body = src.pick(BLANKS)
+            elif how == 1:
+                body = src.pick(PROSE_FENCES)
+            elif how in (2, 3):
+                body = src.pick(PROSE_TITLES)
+                ind = "" if src.below(4) else ind
+                shape = src.below(4)
+                if shape < 2:
+                    # the shapes the Google look-ahead has to reject: [blank,] title, plain line, indented line
+                    if shape == 0 and lines:
+                        lines.append(["", ""])
+                    lines.append(["", body])
+                    lines.append(["", " ".join(src.pick(PROSE_ONLY) for _ in range(1 + src.below(2)))])
+                    lines.append([src.pick(("    ", "  ", "        ")), " ".join(src.pick(PROSE_ONLY) for _ in range(1 + src.below(2)))])
+                    after_title = False
+                    continue
+            else:
+                body = " ".join(src.pick(PROSE_ONLY) for _ in range(1 + src.below(3)))
+            if after_title and body.strip():
+                ind = ""  # the line below a title-like line is not indented: the title opens nothing
+            after_title = how in (2, 3)
+            lines.append([ind, body])
     else:
         for s in src.pick(SUMMARIES):
             lines.append(["", s])
@@ -491,11 +568,15 @@ def soup_cases():
 
 
 def is_prose_only(text_lines: list[str]) -> bool:
-    """Conservative syntactic definition of 'no section syntax' on the *cleaned* lines (used to double-check the
-    prose generator; independent of Griffe's regexes)."""
+    """Conservative syntactic definition of 'no section syntax' on the *cleaned* lines (double-checks the prose generator;
+    independent of Griffe's regexes):
+      * no line starts with ':' (Sphinx fields), no dash-only line (Numpy underlines);
+      * a title-like line (`identifier:` then end of line or white space; identifier = word characters, blanks, dashes), indented or
+        not, is allowed only if the line below it is missing, blank or not indented - Google section syntax is a title with
+        indented contents *directly below* (docs/reference/docstrings.md); a blank line in between is documented to be plain markup."""
     import re
 
-    for line in text_lines:
+    for i, line in enumerate(text_lines):
         s = line.strip()
         if not s:
             continue
@@ -503,9 +584,8 @@ def is_prose_only(text_lines: list[str]) -> bool:
             return False
         if not s.replace("-", "").strip():
             return False
-        # `identifier:` at end of line or followed by whitespace, identifier made of word characters, blanks, dashes
-        if re.match(r"^[\w][\s\w-]*:(\s|$)", s, re.UNICODE):
-            return False
+        if re.match(r"^[\w][\s\w-]*:(\s|$)", s, re.UNICODE) and i + 1 < len(text_lines):
+            below = text_lines[i + 1]
+            if below.strip() and below[:1].isspace():
+                return False
     return True
-
-
